@@ -25,7 +25,7 @@ Lemma quiescent_store_flags s p :
   valid s = true /\ In (fst p) (flags s) /\ exists f', snd p = Pess f' /\ f' <= N.max (fu s) (cmaxc s).
 Proof.
   intros (HI & _ & _) Ht Ha Hin. destruct (HI p Hin) as [[(B1 & _) Hc]|(t & T1 & _)].
-  - destruct (snd p) as [f'|]; [|tauto]. destruct Hc as [[H1 H2]|(e & (a & Ha' & _) & _)]; [|congruence].
+  - destruct (snd p) as [f'|]; [|tauto]. destruct Hc as [[H1 H2]|(a & e & Ha' & _ & _)]; [|congruence].
     split; auto. split; auto. exists f'. auto.
   - rewrite Ht in T1. inversion T1.
 Qed.
@@ -108,4 +108,104 @@ Proof.
   intros Hr. unfold lock_rpc. rewrite Hr.
   destruct s as [a1 a2 a3 a4 a5 ag a7 a8 a9 a10 a11 a12 a13].
   destruct assigned; destruct (many rk || may_be_locked e); destruct ag; reflexivity.
+Qed.
+
+(* ---- draining, and: every state can be finished by well-formed events ---- *)
+Lemma run_nth0_tasks s : tasks (run_nth 0 s) = tl (tasks s).
+Proof. unfold run_nth. destruct (tasks s) as [|t r] eqn:E; simpl; auto. Qed.
+
+Lemma run_nth_valid n s : valid (run_nth n s) = valid s.
+Proof. unfold run_nth. destruct (nth_error (tasks s) n); reflexivity. Qed.
+
+Lemma drain_props n s :
+  Inv s -> (length (tasks s) <= n)%nat ->
+  Inv (drain n s) /\ tasks (drain n s) = [] /\ valid (drain n s) = valid s.
+Proof.
+  revert s. induction n as [|n IH]; simpl; intros s HI Hl.
+  - destruct (tasks s); simpl in Hl; [auto|lia].
+  - destruct (tasks s) as [|t r] eqn:E; [auto|].
+    destruct (IH (run_nth 0 s)) as (A & B & C).
+    + apply Inv_run_nth; auto.
+    + rewrite run_nth0_tasks, E. simpl in *. lia.
+    + rewrite run_nth_valid in C. auto.
+Qed.
+
+Lemma no_leftover_drain s n :
+  Inv s -> valid s = false -> (length (tasks s) <= n)%nat -> store (drain n s) = [].
+Proof.
+  intros HI Hv Hl. destruct (drain_props n s HI Hl) as (A & B & C).
+  apply no_leftover_from; auto. congruence.
+Qed.
+
+Lemma run_app s a b : run s (a ++ b) = run (run s a) b.
+Proof. unfold run. apply fold_left_app. Qed.
+
+Lemma wf_run_runs n s : wf_run s (repeat (ERun 0) n).
+Proof. revert s. induction n; simpl; intros s; auto. Qed.
+
+Lemma run_runs n s :
+  (length (tasks s) <= n)%nat ->
+  tasks (run s (repeat (ERun 0) n)) = [] /\ valid (run s (repeat (ERun 0) n)) = valid s.
+Proof.
+  revert s. induction n as [|n IH]; simpl; intros s Hl.
+  - destruct (tasks s); simpl in Hl; [auto|lia].
+  - destruct (IH (run_nth 0 s)) as (A & B).
+    + rewrite run_nth0_tasks. destruct (tasks s); simpl in *; lia.
+    + rewrite run_nth_valid in B. auto.
+Qed.
+
+Lemma rollback_valid s : pending s = false -> valid (rollback s) = false.
+Proof.
+  intros Hp. unfold rollback. destruct (valid s) eqn:Ev; simpl; auto. rewrite Hp.
+  unfold rollback_body. reflexivity.
+Qed.
+
+Lemma agg_cancel_not_pending s : pending (agg_cancel s) = false.
+Proof.
+  unfold pending, agg_cancel. destruct (agg s) as [a|] eqn:Ea; [reflexivity|]. rewrite Ea. auto.
+Qed.
+
+Definition finish_evs (s : st) : list ev :=
+  EAggCancel :: ERollback :: repeat (ERun 0) (length (tasks (rollback (agg_cancel s)))).
+
+Lemma can_always_finish s :
+  wf_run s (finish_evs s) /\ valid (run s (finish_evs s)) = false /\ tasks (run s (finish_evs s)) = [].
+Proof.
+  unfold finish_evs. pose proof (agg_cancel_not_pending s) as Hp.
+  split.
+  - simpl. repeat split; auto. apply wf_run_runs.
+  - simpl. destruct (run_runs (length (tasks (rollback (agg_cancel s)))) (rollback (agg_cancel s)) (le_n _)) as (A & B).
+    split; auto. rewrite B. apply rollback_valid; auto.
+Qed.
+
+Lemma no_leftover_general s evs :
+  Inv s -> wf_run s evs -> valid (run s evs) = false -> tasks (run s evs) = [] -> store (run s evs) = [].
+Proof. intros HI Hwf. apply no_leftover_from. apply Inv_run; auto. Qed.
+
+(* the contract can be met in every state, with ANY answer of the store *)
+Lemma wf_ev_exists s :
+  (forall k, wf_ev s (ESet k) /\ wf_ev s (EDel k) /\ wf_ev s (EInsert k)) /\
+  wf_ev s EAggStart /\ wf_ev s EAggRetry /\ wf_ev s EAggCancel /\ wf_ev s EAggDone /\
+  (forall n ks, wf_ev s (ERun n) /\ wf_ev s (ERunSome n ks)) /\
+  (valid s = true -> forall ks rv ce loie f o, fu s <= f -> wf_ev s (ELock ks rv ce loie f o)) /\
+  (pending s = false -> wf_ev s ERollback /\ forall o, wf_ev s (ECommit o)).
+Proof. unfold wf_ev. repeat split; simpl; auto. Qed.
+
+Lemma wf_run_app s a b : wf_run s a -> wf_run (run s a) b -> wf_run s (a ++ b).
+Proof.
+  revert s. induction a as [|e r IH]; simpl; intros s Ha Hb; auto.
+  destruct Ha as [H1 H2]. split; auto.
+Qed.
+
+Lemma every_run_can_finish_clean p evs :
+  wf_run (init p) evs ->
+  exists more, wf_run (init p) (evs ++ more) /\
+    valid (run (init p) (evs ++ more)) = false /\ tasks (run (init p) (evs ++ more)) = [] /\
+    store (run (init p) (evs ++ more)) = [].
+Proof.
+  intros H. exists (finish_evs (run (init p) evs)).
+  destruct (can_always_finish (run (init p) evs)) as (A & B & C).
+  assert (W : wf_run (init p) (evs ++ finish_evs (run (init p) evs))) by (apply wf_run_app; auto).
+  split; [exact W|]. rewrite run_app. repeat split; auto.
+  rewrite <- run_app. apply no_leftover_from; [apply bookkeeping_inv; auto| |]; rewrite run_app; auto.
 Qed.
